@@ -226,9 +226,29 @@ func runDetect(t *simrt.Tape, keep bool) simrt.Outcome {
 			}
 			break
 		}
+		// the commands sniff all their inputs before they decode the first record of any of them (decoder() in
+		// file.go): what was consumed while sniffing one input has to survive the sniffing of the next
+		var (
+			dec2 vegeta.Decoder
+			rs2  []vegeta.Result
+			f2   string
+		)
+		if t.Prob(1, 4) {
+			f2 = formats[t.Choose(3)]
+			rs2 = genResults(r, 1+t.Choose(3), simcommon.GenOpts{NoCR: true})
+			if file2, _, ok := encodeAll(r, "C08", f2, rs2); ok {
+				r.guard("C08", "DecoderFor", func() { dec2 = vegeta.DecoderFor(bytes.NewReader(file2.Data)) })
+				r.log.Addf("second input sniffed before the first is decoded: %s n=%d", f2, len(rs2))
+				r.stats["probe.detect-two-inputs-sniffed-before-decoding"]++
+			}
+		}
 		got, err := decodeAll(r, "C08", "detected decoder", dec, n+2)
 		if compareSeq(r, "C08", "C08.detect", f, rs, got) && err != io.EOF {
 			r.fail("C08", "C08.eof", map[string]string{"fmt": f}, "%s: detected decoder ended with %v, want io.EOF", f, err)
+		}
+		if dec2 != nil && r.viol == nil {
+			got2, _ := decodeAll(r, "C08", "decoder detected for the second input", dec2, len(rs2)+2)
+			compareSeq(r, "C08", "C08.detect-second-input", f2, rs2, got2)
 		}
 		r.stats["probe.detect."+f+"."+producer]++
 	case 1:
